@@ -336,6 +336,29 @@ func (e *Engine) step(fr *Frame, in ssa.Instruction) {
 			case FloatVal:
 				fr.env[in] = FloatVal{-x.f}
 			}
+		case token.XOR:
+			// bitwise complement: -x-1 on signed integers, max-x on unsigned ones
+			t, isT := x.(*Term)
+			b, isB := in.Type().Underlying().(*types.Basic)
+			if !isT || !isB || b.Info()&types.IsInteger == 0 {
+				unsupported("unop ^ on %T", x)
+			}
+			if b.Info()&types.IsUnsigned == 0 {
+				fr.env[in] = tArith("-", tArith("-", mkInt(0), t), mkInt(1))
+				break
+			}
+			var mx int64
+			switch b.Kind() {
+			case types.Uint8:
+				mx = 1<<8 - 1
+			case types.Uint16:
+				mx = 1<<16 - 1
+			case types.Uint32:
+				mx = 1<<32 - 1
+			default:
+				unsupported("unop ^ on a 64-bit unsigned value")
+			}
+			fr.env[in] = tArith("-", mkInt(mx), t)
 		default:
 			unsupported("unop %s", in.Op.String())
 		}
